@@ -26,18 +26,11 @@ type c06Run struct {
 	parseErr bool
 }
 
-func c06Render(tmpl string) c06Run {
+// binds: the variables of the case that are bound by the case itself (oracle_c06_env.go); nil = none
+func c06Render(tmpl string, binds map[string]interface{}) c06Run {
 	var ct, cf int32
 	var perr int32
-	data := map[string]interface{}{
-		"ct": func() bool { atomic.AddInt32(&ct, 1); return true },
-		"cf": func() bool { atomic.AddInt32(&cf, 1); return false },
-	}
-	for _, l := range c06AllPool {
-		if l.goVal != nil {
-			data[l.name] = l.goVal
-		}
-	}
+	data := c06Data(&ct, &cf, binds)
 	o := safeCall(3*time.Second, func() (string, error) {
 		t, err := plush.Parse(tmpl)
 		if err != nil {
@@ -47,6 +40,22 @@ func c06Render(tmpl string) c06Run {
 		return t.Exec(plush.NewContextWith(data))
 	})
 	return c06Run{o: o, cnt: c06Counts{int(atomic.LoadInt32(&ct)), int(atomic.LoadInt32(&cf))}, parseErr: atomic.LoadInt32(&perr) == 1}
+}
+
+func c06Data(ct, cf *int32, binds map[string]interface{}) map[string]interface{} {
+	data := map[string]interface{}{
+		"ct": func() bool { atomic.AddInt32(ct, 1); return true },
+		"cf": func() bool { atomic.AddInt32(cf, 1); return false },
+	}
+	for _, l := range c06AllPool {
+		if l.goVal != nil {
+			data[l.name] = l.goVal
+		}
+	}
+	for k, v := range binds {
+		data[k] = v
+	}
+	return data
 }
 
 func (r c06Run) String() string {
@@ -116,7 +125,7 @@ func c06Check(n *c06Node, style string) c06Checked {
 	if c.ref.class == c06Unspec {
 		return c // nothing to compare with; do not even render
 	}
-	c.run = c06Render(c06Tmpl(n, style))
+	c.run = c06Render(c06Tmpl(n, style), c06Binds(n))
 	c.dis = c06Disagree(c.ref, c.refCnt, c.run)
 	if key != "" && c.run.o.Kind() != "HANG" {
 		c06Small.Store(key, c)
@@ -232,7 +241,7 @@ func c06ParseFamily(n *c06Node, style string, c c06Checked) string {
 	fixes := func(i int) bool {
 		w2 := append([]int(nil), w...)
 		w2[at[i]] = 1
-		return c06Disagree(c.ref, c.refCnt, c06Render("<%= "+c06PrintWraps(n, w2)+" %>")) == ""
+		return c06Disagree(c.ref, c.refCnt, c06Render("<%= "+c06PrintWraps(n, w2)+" %>", c06Binds(n))) == ""
 	}
 	switch l, r := fixes(0), fixes(1); {
 	case l && !r:
@@ -423,9 +432,25 @@ type c06GenCfg struct {
 	pool   []*c06Leaf
 	probes bool
 	magPct int // percentage of int / float leaves taken from the extension pool
+	// env stream only: variables bound by the environments of the case; varKinds[i] is the kind variable i
+	// mostly holds in this tree, varPct the percentage of leaves of that kind that are the variable
+	vars     []*c06Leaf
+	varKinds []c06Kind
+	varPct   int
 }
 
 func c06GenLeaf(r *Rng, want c06Kind, g c06GenCfg) *c06Node {
+	if len(g.vars) > 0 && r.Chance(g.varPct) {
+		var cand []*c06Leaf
+		for i, v := range g.vars {
+			if g.varKinds[i] == want {
+				cand = append(cand, v)
+			}
+		}
+		if len(cand) > 0 {
+			return c06L(Pick(r, cand))
+		}
+	}
 	if want == c06Bool && g.probes && r.Chance(45) {
 		return c06L(Pick(r, c06Probes))
 	}
@@ -505,14 +530,24 @@ func init() {
 			"Each tree is printed with minimal, full and one random admissible parenthesisation and rendered as <%= EXPR %>; " +
 			"a reference evaluator over the tree (written from the property text; ints are exact 64-bit, floats IEEE float64) gives the expected value or error. " +
 			"The printed form of a float that Go would write with an exponent is taken from plush's own rendering of <%= x %> with x that float64 (so only consistency is demanded: a value renders like itself, string + x appends that text). " +
-			"non-trivial = at least one operator and a result the property text defines; distinct by tree+printing. " +
-			"Case text: tree=<the oracle's own s-expression> style=min|full|p<pairs of parentheses per node, preorder> (tmpl= is informative). " +
+			"INPUTS (the quantifier is over programs x inputs): trees whose leaves include variables va vb vc bound by the case, evaluated under a SEQUENCE of environments " +
+			"(values 0 3 7 -3, 1.5 0.25 -0.5 0.0, \"a\" \"b\" \"\" \"abc\" \"^a\" \"^b\" \"c$\" \"a.c\" \"3\" \"a<b\", true false; values and KINDS change between environments) in one of four ways: " +
+			"mode=exec one parsed template, Exec once per environment; mode=clone the same on a fresh Clone() each time; mode=render a fresh Parse of the same text each time; " +
+			"mode=loop:v one render of for (v) in vseq { EXPR } with v taking its value of each environment. Every single evaluation must give the reference result for that environment " +
+			"(an unspecified step is executed but not compared; a loop stops at the first error / before the first unspecified iteration). " +
+			"(E1) exhaustive: every x op y over va vb (13 operators, and !va) under every ordered pair of environments over 9 values 3 -3 1.5 0.25 \"abc\" \"^a\" \"^b\" \"\" true (quick; 12 values thorough), mode=exec, and as a loop when one variable changes; " +
+			"(ER) random: type-directed trees of depth 1..4 with about half of the leaves variables, one of the three printings, a random mode (exec 40 clone 10 render 10 loop 40), 2..4 environments (a variable holds a value of its usual kind 85% of the time; 1 environment in 4 repeats an earlier one). " +
+			"A disagreement that a fresh single render of that step reproduces is diagnosed like any other tree (variable leaves written va:VALUE); otherwise the family is reeval-<mode>-<operator of the smallest subtree whose value depends on the history>, reported with the shortest history found. " +
+			"non-trivial = at least one operator and a result the property text defines (sequences: at least two compared evaluations); distinct by tree+printing(+mode+environments). " +
+			"Case text: tree=<the oracle's own s-expression> style=min|full|p<pairs of parentheses per node, preorder> [mode=exec|clone|render|loop:<var> envs=<var:value,...;...>] (tmpl= is informative). " +
 			"Cases the text leaves open are tagged ref-unspecified and not rendered. Every rendered case reaches parseExpression and (unless a parse error) evalInfix/evalPrefix."
 		rep.Notes = []string{
 			"not checked (property text silent): ~= with a non-string pattern or on non-strings of one type; - * / on strings; arithmetic and ordering on bools; any operator other than == != on nil,nil; string + nil; unary minus; integer results that overflow 64 bits; float results that overflow to Inf/NaN; the spelling of a float printed with an exponent (only its consistency, see rule); the text of error messages",
 			"! && || on non-boolean operands are taken to yield the bool truth value of C07 (0 and numbers truthy, \"\" and nil falsy)",
 			"int vs float operands count as an operand-type mismatch (error), as do nil vs non-nil operands except under == != and string + x",
 			"helper-call counts are compared only when the reference result is a value (evaluation order of strict operators is not stated)",
+			"a context variable holding Go nil is not used as an operand (plush reports it as an unknown identifier; whether that is the operand nil is not C06's question); nil is a literal leaf only",
+			"global switches (plush.CacheEnabled) are not touched: reuse of one parsed template is exercised through Template.Exec / Clone and through loop bodies",
 		}
 
 		seenFail := map[string]bool{}
@@ -545,7 +580,23 @@ func init() {
 				rep.Notes = append(rep.Notes, "replay: bad tree: "+err.Error())
 				return []*Report{rep}
 			}
-			style := strings.Fields(a[j+7:])[0]
+			fields := strings.Fields(a[j+7:])
+			style := fields[0]
+			if len(fields) >= 3 && strings.HasPrefix(fields[1], "mode=") && strings.HasPrefix(fields[2], "envs=") {
+				// a sequence case: tree=... style=... mode=exec|clone|render|loop:<var> envs=<var:value,...;...>
+				mode := fields[1][5:]
+				envs, err := c06ParseEnvs(fields[2][5:])
+				lv := c06LoopVar(mode)
+				switch {
+				case err != nil:
+					rep.Notes = append(rep.Notes, "replay: bad envs: "+err.Error())
+				case mode != "exec" && mode != "clone" && mode != "render" && (lv == "" || c06VarLeafByTok(lv) == nil || strings.Contains(lv, ":")):
+					rep.Notes = append(rep.Notes, "replay: bad mode (want exec|clone|render|loop:<variable>)")
+				default:
+					record(c06DoSeq(c06SeqJob{n: n, style: style, mode: mode, envs: envs, stream: "replay"}))
+				}
+				return []*Report{rep}
+			}
 			record(c06Do(c06Job{n: n, style: style, stream: "replay"}))
 			return []*Report{rep}
 		}
@@ -655,6 +706,42 @@ func init() {
 			addTree("random", c06Gen(r, d, c06Any, g, true))
 		}
 		flush()
+
+		// ---- the same expression evaluated again with other inputs (oracle_c06_env.go) ----
+		var seqBatch []c06SeqJob
+		flushSeq := func() {
+			if !stopped && len(seqBatch) > 0 {
+				outs := make([]c06Out, len(seqBatch))
+				c06Parallel(len(seqBatch), func(i int) { outs[i] = c06DoSeq(seqBatch[i]) })
+				for _, o := range outs {
+					record(o)
+				}
+				if rep.Full() || tooManyHangs() {
+					stopped = true
+				}
+			}
+			seqBatch = seqBatch[:0]
+		}
+		addSeq := func(j c06SeqJob) {
+			if stopped {
+				return
+			}
+			if seqBatch = append(seqBatch, j); len(seqBatch) >= batchSize {
+				flushSeq()
+			}
+		}
+		envNames := c06EnvQuickNames
+		if cfg.Thorough() {
+			envNames = c06EnvThoroughNames
+		}
+		c06EnumSeq(allOps, envNames, addSeq)
+		re := NewRng(cfg.Seed).Fork(606)
+		for i := 0; i < cfg.N(30000, 400000) && !stopped; i++ {
+			if j, ok := c06GenSeq(re); ok {
+				addSeq(j)
+			}
+		}
+		flushSeq()
 		if stopped {
 			rep.Notes = append(rep.Notes, "stopped early: failure cap or hang cap reached; not exhaustive")
 			rep.Exhaustive = false
